@@ -16,7 +16,6 @@
 //@end
 //@item src/frontend/lexer.rs | enum | TokenType
 //@derive Clone, Copy
-//@noisvariant
 //@end
 //@item src/frontend/lexer.rs | struct | Token
 //@end
